@@ -428,6 +428,15 @@ def check_dag(ctx):
     fresh = [c for c in calls_named(it, "DAGIterator")]
     rets_it = [n for n in own_nodes(it.node) if isinstance(n, ast.Return)]
     ok_it = len(fresh) == 1 and len(fresh[0].args) == 1 and norm.is_name(fresh[0].args[0], "self") and len(rets_it) >= 1
+    if ok_it:
+        # what is returned IS that fresh iterator (not an iterator over a stored/cached order), built on every call
+        git = cfg_of(it, subst_env=False)
+        pf = parent(fresh[0])
+        holder = norm.U(pf.targets[0]) if isinstance(pf, ast.Assign) and len(pf.targets) == 1 else None
+        ok_it = git.path_avoiding(git.entry.id, {git.exit.id}, {git.node_of(fresh[0]).id}) is None and all(
+            (r.value is fresh[0]) or (holder is not None and norm.U(r.value) == holder) for r in rets_it)
+        stores = [n for n in own_nodes(it.node) if isinstance(n, ast.Assign) and any(isinstance(t, ast.Attribute) for t in n.targets) and n is not pf]
+        ok_it = ok_it and not stores
     ctx.ob(9, "K6", "every iteration of a DAG gets a fresh DAGIterator over that DAG", ok_it, it, fresh[0] if fresh else it.node,
            construct="DAGIterator(self)", detail=f"{[norm.U(c) for c in fresh]}")
 
